@@ -663,6 +663,17 @@ impl<'a> Tr<'a> {
         }
         let name = segs.last().cloned().unwrap_or_default();
         let name = if name == "Self" { self.cur.self_ty.clone().unwrap_or_default() } else { name };
+        // `A::<X> { .. }` where `type A<T> = T;` was declared in this function: the struct literal of `X`
+        let name = match (s.path.segments.len() == 1 && self.identity_aliases.contains(&name), &s.path.segments[0].arguments) {
+            (true, syn::PathArguments::AngleBracketed(ab)) if ab.args.len() == 1 => match &ab.args[0] {
+                syn::GenericArgument::Type(syn::Type::Path(tp)) if tp.qself.is_none() => {
+                    let n = tp.path.segments.last().map(|x| x.ident.to_string()).unwrap_or_default();
+                    if n == "Self" { self.cur.self_ty.clone().unwrap_or_default() } else { n }
+                }
+                _ => name,
+            },
+            _ => name,
+        };
         let lean = match self.reg.structs.get(&name) {
             Some(l) => l.clone(),
             None => return self.err(s.span(), &format!("struct `{}` is not a translation target", name)),
